@@ -162,12 +162,16 @@ impl FeoxStore {
         let record_size = self.calculate_record_size(key.len(), value.len());
 
         loop {
+            #[cfg(feoxdb_verif)]
+            crate::verif::sched::point("c07_upsert_top");
             let existing_record = self.hash_table.read(key, |_, v| v.clone());
             if let Some(existing_record) = existing_record {
                 if timestamp <= existing_record.timestamp {
                     return Err(FeoxError::OlderTimestamp);
                 }
                 crate::test_hooks::pause_at(crate::test_hooks::AFTER_UPSERT_READ);
+                #[cfg(feoxdb_verif)]
+                crate::verif::sched::point("c07_upsert_guard");
 
                 match self.update_record_with_ttl(
                     &existing_record,
@@ -196,6 +200,8 @@ impl FeoxStore {
 
             let key_vec = record.key.clone();
 
+            #[cfg(feoxdb_verif)]
+            crate::verif::sched::point("c07_upsert_insert");
             let buffered_record = match self.hash_table.entry(key_vec.clone()) {
                 scc::hash_map::Entry::Vacant(entry) => {
                     let buffered_record = self
@@ -278,12 +284,16 @@ impl FeoxStore {
     ) -> Result<bool> {
         let new_size = self.calculate_record_size(key.len(), value.len());
         loop {
+            #[cfg(feoxdb_verif)]
+            crate::verif::sched::point("c07_upsert_top");
             let existing_record = self.hash_table.read(key, |_, v| v.clone());
             if let Some(existing_record) = existing_record {
                 if timestamp <= existing_record.timestamp {
                     return Err(FeoxError::OlderTimestamp);
                 }
 
+                #[cfg(feoxdb_verif)]
+                crate::verif::sched::point("c07_upsert_guard");
                 match self.update_record_with_ttl_bytes(
                     &existing_record,
                     value.clone(),
@@ -315,6 +325,8 @@ impl FeoxStore {
 
             let key_vec = record.key.clone();
 
+            #[cfg(feoxdb_verif)]
+            crate::verif::sched::point("c07_upsert_insert");
             let buffered_record = match self.hash_table.entry(key_vec.clone()) {
                 scc::hash_map::Entry::Vacant(entry) => {
                     let buffered_record = self
@@ -514,6 +526,8 @@ impl FeoxStore {
         self.validate_key(key)?;
         let (timestamp, explicit_timestamp) = self.resolve_timestamp(key, timestamp);
 
+        #[cfg(feoxdb_verif)]
+        crate::verif::sched::point("c07_delete_guard");
         let (record, old_value_len) = match self.hash_table.entry(key.to_vec()) {
             scc::hash_map::Entry::Occupied(entry) => {
                 let record = Arc::clone(entry.get());
